@@ -45,6 +45,7 @@ type c10Desc struct {
 	End    string   `json:"end"`            // ... and then: half | close | abort
 	EPIPE  int      `json:"epipe"`          // the n-th reply write on the victim connection fails (0 = none)
 	Probe  bool     `json:"probe"`          // a well-behaved connection runs concurrently
+	Stall  int      `json:"stall,omitempty"` // the client never reads: room for Stall bytes of replies (<0: none), it closes only after the probe is done
 }
 
 // classify restates "a JSON value of the call's shape": null, or an object whose known members,
@@ -145,12 +146,23 @@ func c10Body(d c10Desc) func() {
 			if d.EPIPE > 0 {
 				c.Peer().FailWriteAt = d.EPIPE
 			}
+			if d.Stall != 0 {
+				c.Peer().Cap = d.Stall
+			}
 			s := d.stream()
 			if d.Cut < len(s) {
 				s = s[:d.Cut]
 			}
 			if len(s) > 0 {
 				c.Write([]byte(s))
+			}
+			if d.Stall != 0 {
+				// a client that pipelines calls and does not read: it goes away only after the well-behaved
+				// connection has been served completely (which must not depend on this one)
+				vsched.Yield("stalled-reader", "victim", func() bool {
+					pc, ok := w.Clients["p"]
+					return ok && strings.Count(string(pc.Received()), "\x00") >= len(probeScript)
+				})
 			}
 			switch d.End {
 			case "half":
@@ -230,7 +242,7 @@ func c10Check(d c10Desc) func(x *vsched.Exec) (string, string) {
 	_ = offending
 	wantFrames, wantLog := refConn(calls)
 	pFrames, pLog := refConn(probeScript)
-	exact := d.End == "half" && d.EPIPE == 0
+	exact := d.End == "half" && d.EPIPE == 0 && d.Stall == 0
 	return func(x *vsched.Exec) (string, string) {
 		if x.Panic != "" {
 			return "panic: " + x.Panic, "panic"
@@ -405,6 +417,30 @@ func scenariosC10(tier string) []Scen {
 						dd := d
 						dd.Cut, dd.End = cut, end
 						add(dd, 1)
+					}
+				}
+			}
+			// stalled readers: the victim's replies cannot be written (at all / after the first byte) until it goes away
+			if tail == "" && len(fs) <= 2 {
+				pure := true
+				for _, f := range fs {
+					switch f {
+					case "call", "more", "getinfo", "big", "unknown", "herr", "null":
+					default:
+						pure = false
+					}
+				}
+				if pure {
+					for _, stall := range []int{-1, 1} {
+						for _, end := range []string{"close", "abort"} {
+							dd := d
+							dd.Cut, dd.End, dd.Stall = n, end, stall
+							b := 2
+							if tier != "quick" {
+								b = 3
+							}
+							add(dd, b)
+						}
 					}
 				}
 			}
